@@ -74,6 +74,7 @@ type handRec struct {
 	beWagers         map[int]*[4]int // per game index: wager steps the backend applied (all, calls, checks, folds)
 	settledFinal     bool            // the settlement verdict has been taken
 	pendingSettle    []CapturedViol
+	settleEvalByTask map[string][]CapturedViol
 }
 
 type blindUpd struct {
@@ -301,6 +302,9 @@ func (m *tableMon) onStateEvent(ev, status string, gc int) {
 	m.lifecycle(status, gc, "state:"+ev)
 	if ev == pt.TableStateEvent_GameUpdated {
 		m.engineOwnPublication()
+	}
+	if ev == pt.TableStateEvent_GameSettled {
+		m.engineOwnSettlement()
 	}
 }
 
@@ -1363,17 +1367,35 @@ func (m *tableMon) onSettled(t *pt.Table, seq int64) {
 	// is therefore taken on the last publication of the settled hand: a failing one is held back and
 	// re-judged on the next, and reported when the table moves on.
 	vs := c.Capture(first, func() { m.judgeSettlement(h, t, seq) })
-	if len(vs) == 0 {
-		h.settledFinal = true
-		h.pendingSettle = nil
-		m.pendingSettleHand = nil
-		return
-	}
 	if !first {
 		c.Probe("settlement_rejudged_on_later_publication")
 	}
+	// The verdict that counts is the one on the engine's own settlement publication (the one its
+	// GameSettled notification follows, sent by the same task); until that is seen - or the table moves
+	// on without it - the latest evaluation is held back.
+	if vs == nil {
+		vs = []CapturedViol{}
+	}
 	h.pendingSettle = vs
+	if h.settleEvalByTask == nil {
+		h.settleEvalByTask = map[string][]CapturedViol{}
+	}
+	h.settleEvalByTask[simrt.CurName()] = vs
 	m.pendingSettleHand = h
+}
+
+// engineOwnSettlement: the GameSettled notification follows the engine's own publication of the settled hand.
+func (m *tableMon) engineOwnSettlement() {
+	h := m.pendingSettleHand
+	if h == nil || h.settledFinal {
+		return
+	}
+	vs, ok := h.settleEvalByTask[simrt.CurName()]
+	if !ok {
+		return
+	}
+	h.pendingSettle = vs
+	m.flushSettlement()
 }
 
 // flushSettlement reports the held-back verdict of a settled hand once the table has moved on.
